@@ -941,6 +941,81 @@ def gen_cli(repo):
     return '\n'.join(L) + '\n'
 
 
+# ----------------------------------------------------------------------------- T6: panic inventory
+
+PANIC_PATTERNS = [
+    (r'\bpanic!\s*\(', 'panic!'),
+    (r'\bassert(?:_eq|_ne)?!\s*\(', 'assert!'),
+    (r'\bunreachable!\s*\(', 'unreachable!'),
+    (r'\bunimplemented!\s*\(|\btodo!\s*\(', 'todo!'),
+    (r'\.unwrap\(\)', '.unwrap()'),
+    (r'\.expect\(', '.expect()'),
+    (r'\b[a-z_][\w\.]*\[\(?[^\]\n]+\]', 'index'),
+    (r'\bself\.steps\s*/\s*self\.inner_steps\b', 'u64 division'),
+    (r'Uniform::new\(', 'Uniform::new'),
+]
+
+
+def panic_sites(src, fn_name, after=0):
+    body = fn_body(src, fn_name, after)
+    if body is None:
+        return None
+    out = []
+    for pat, label in PANIC_PATTERNS:
+        for m in re.finditer(pat, body):
+            text = re.sub(r'\s+', ' ', body[m.start():m.end()])
+            if label == 'index':
+                # attribute lists and array type syntax are not indexing
+                if text.startswith('vec[') or re.match(r'^[a-z_]+\[\d*\]$', text) is None and False:
+                    continue
+                label_text = 'index ' + text
+            else:
+                label_text = label
+            out.append((m.start(), label_text))
+    out.sort()
+    return [t for _, t in out]
+
+
+def gen_panics(repo):
+    notes = []
+    L = ['/- GENERATED by tools/pvtx.py: panic-capable constructs of the functions the properties name — do not edit. -/',
+         'namespace PV.Generated', '']
+    targets = [
+        ('src/transform.rs', 'from_operations', 'fromOperationsPanicSites'),
+        ('src/optimisation.rs', 'optimise_state', 'optimiseStatePanicSites'),
+        ('src/optimisation.rs', 'accept_score', 'acceptScorePanicSites'),
+        ('src/optimisation.rs', 'build', 'buildPanicSites'),
+        ('src/main.rs', 'analyse_state', 'analyseStatePanicSites'),
+        ('src/main.rs', 'main', 'mainPanicSites'),
+    ]
+    for rel, fn, name in targets:
+        src = read(repo, rel)
+        sites = panic_sites(src, fn)
+        if sites is None:
+            notes.append('%s: fn %s not found' % (rel, fn))
+            sites = []
+        L.append('/-- `%s` in %s -/' % (fn, rel))
+        L.append('def %s : List String := [' % name + ', '.join(lean_str(x) for x in sites) + ']')
+    # set_value / reset_value / sample of StandardBasis
+    basis = read(repo, 'src/basis.rs')
+    m = re.search(r'impl<\'a>\s*Basis\s+for\s+StandardBasis<\'a>\s*\{', basis)
+    sites = []
+    if m:
+        b = basis[m.end():match_brace(basis, m.end() - 1)]
+        for pat, label in PANIC_PATTERNS:
+            for mm in re.finditer(pat, b):
+                sites.append(label if label != 'index' else 'index ' + re.sub(r'\s+', ' ', b[mm.start():mm.end()]))
+    else:
+        notes.append('impl Basis for StandardBasis not found')
+    L.append('/-- `impl Basis for StandardBasis` -/')
+    L.append('def basisPanicSites : List String := [' + ', '.join(lean_str(x) for x in sites) + ']')
+    L.append('')
+    L.append('def panicsUnrecognised : List String := [' + ', '.join(lean_str(x) for x in notes) + ']')
+    L.append('')
+    L.append('end PV.Generated')
+    return '\n'.join(L) + '\n'
+
+
 # ----------------------------------------------------------------------------- main
 
 GENERATORS = {
@@ -948,6 +1023,7 @@ GENERATORS = {
     'Bounds.lean': gen_bounds,
     'State.lean': gen_state,
     'Cli.lean': gen_cli,
+    'Panics.lean': gen_panics,
 }
 
 
@@ -960,7 +1036,7 @@ def main():
             text = fn(repo)
         except Exception as e:  # translator failure is a broken obligation, not a crash
             text = ('/- GENERATED: translator failed: %s -/\n'
-                    'import Model.Family\nnamespace PV.Generated\n'
+                    'namespace PV.Generated\n'
                     'def translatorFailed_%s : Bool := true\nend PV.Generated\n') % (
                         str(e).replace('-/', '- /'), name.split('.')[0])
         path = os.path.join(outdir, name)
